@@ -368,6 +368,23 @@ func genC05(r *Rng, tier string) []Case {
 			}
 			cs = append(cs, Case{Op: "smb.enc", MArgs: []string{name, env}, SArgs: []string{name, env}, Tag: tag})
 		}
+		// "every number (0..N) of negotiated dialects": each count once per run, not left to chance
+		hasDialects := false
+		for _, f := range g.Fields {
+			if f.Type == "dialects.Dialects" {
+				hasDialects = true
+			}
+		}
+		if hasDialects {
+			for n := 0; n <= 8; n++ {
+				forceDialectCount = n
+				env := genEnv(rr, g, true, n%2 == 0, false)
+				forceDialectCount = -1
+				if env != "" {
+					cs = append(cs, Case{Op: "smb.enc", MArgs: []string{name, env}, SArgs: []string{name, env}, Tag: fmt.Sprintf("enc.dialects-%d", n)})
+				}
+			}
+		}
 	}
 	return cs
 }
